@@ -10,6 +10,8 @@ import (
 	"context"
 	"errors"
 	"fmt"
+	"io"
+	"os"
 	"sync"
 )
 
@@ -57,6 +59,34 @@ type recStore struct {
 
 var errInjected = errors.New("injected fault")
 
+// injectedErr is the error an injected fault returns. Real backends fail with errors of many kinds - a per-request deadline, a
+// cancelled request, a truncated stream, a missing or an existing file - and a caller of the library must get every one of them
+// back; which one an injection returns is a function of the name (or position) it fails at, so that re-executions agree.
+func injectedErr(at string) error {
+	h := 0
+	for i := 0; i < len(at); i++ {
+		h = h*31 + int(at[i])
+	}
+	if h < 0 {
+		h = -h
+	}
+	switch h % 8 {
+	case 1:
+		return fmt.Errorf("injected fault: %w", context.DeadlineExceeded)
+	case 2:
+		return fmt.Errorf("injected fault: %w", context.Canceled)
+	case 3:
+		return fmt.Errorf("injected fault: %w", io.EOF)
+	case 4:
+		return fmt.Errorf("injected fault: %w", os.ErrNotExist)
+	case 5:
+		return fmt.Errorf("injected fault: %w", os.ErrExist)
+	case 6:
+		return fmt.Errorf("injected fault: %w", io.ErrUnexpectedEOF)
+	}
+	return errInjected
+}
+
 func newRecStore(prefix string) *recStore {
 	return &recStore{prefix: prefix, m: map[string][]byte{}}
 }
@@ -93,7 +123,7 @@ func (s *recStore) Store(ctx context.Context, name string, b []byte) error {
 		if s.rec {
 			s.events = append(s.events, storeEvent{s.seq, "store", name, nil, true})
 		}
-		return errInjected
+		return injectedErr(name)
 	}
 	cp := append([]byte{}, b...)
 	if s.rec {
@@ -125,7 +155,7 @@ func (s *recStore) Load(ctx context.Context, name string) ([]byte, error) {
 		if s.rec {
 			s.events = append(s.events, storeEvent{s.seq, "load", name, nil, true})
 		}
-		return nil, errInjected
+		return nil, injectedErr(name)
 	}
 	b, ok := s.m[name]
 	if !ok && s.parent != nil {
